@@ -150,8 +150,12 @@ def u_flips(ctx, u):
             offs = list(range(n))
         for o in offs:
             plan_.append((idx, o, 1 << rng.randrange(8), is_hs, rec[0]))
-        if not u['per_record'] and is_hs:
-            for o in range(min(n, 48)):         # all eight bits for the message header region
+        hello = rec[0] == T.REC_HANDSHAKE and n > 4 and rec[5] in (1, 2)
+        if is_hs and (hello or not u['per_record']):
+            # all eight bits: of the whole ClientHello / ServerHello (the only messages whose alteration can leave
+            # both key schedules intact, so that nothing but the Finished comparison notices it) in every tier, and of
+            # the message header region of every other handshake record in the thorough tier
+            for o in range(n if hello else min(n, 48)):
                 for b in range(8):
                     plan_.append((idx, o, 1 << b, is_hs, rec[0]))
     plan_ = sorted(set(plan_))
